@@ -1,6 +1,6 @@
 SPECIFICATION FairSpec
 CONSTANTS
-  Scenarios <- LiveScenarios
+  Scenarios <- QuickScenarios
   Ticks = FALSE
   SkipFix = TRUE
   CctFix = TRUE
